@@ -4,6 +4,7 @@ package main
 // Every case runs in its own worker subprocess (address-space limit 4 GiB): monitor M9.
 
 import (
+	"time"
 	"fmt"
 	"strconv"
 	"strings"
@@ -236,6 +237,26 @@ func c20Run(c *Case) {
 	if strings.HasPrefix(lc.name, "recursion/") && isErr {
 		c.Max("refusal_frame_depth", lib.MaxDepth)
 	}
+	// the same step through the command-line binary (its process has its own stack and memory settings)
+	if (family == "recursion" || family == "long-history") && len(lc.prog) < 100000 && len(lc.input) < 100000 {
+		args := []string{"--", lc.prog}
+		r := RunCli(c.env.Jqawk, args, lc.input, c.env.Scratch, 170*time.Second)
+		c.Count("binary_runs")
+		switch {
+		case r.TimedOut:
+			c.Inconclusive("binary-watchdog")
+			return
+		case cliFault(r) != "":
+			c.Violation(fmt.Sprintf("%s through the binary: %s | stderr %s", lc.name, cliFault(r), clip(string(r.Stderr), 200)), nil, rp)
+			return
+		case !strings.HasPrefix(string(r.Stdout), lc.marker):
+			c.Violation(fmt.Sprintf("%s through the binary: output written before the limit was reached is lost: %q", lc.name, clip(string(r.Stdout), 60)), nil, rp)
+			return
+		case (r.Exit == 0) != (lib.Class == "ok"):
+			c.Violation(fmt.Sprintf("%s: the binary exits %d but the library run ended as %s", lc.name, r.Exit, lib.Class), nil, rp)
+			return
+		}
+	}
 	if c.Idx == 0 || c.Idx == len(c20List)-3 {
 		c.Sample(map[string]any{"case": lc.name, "program": clip(lc.prog, 300), "outcome": lib.Class, "message": lib.Msg, "peak_rss_kb": ru.Maxrss, "max_frame_depth": lib.MaxDepth})
 	}
@@ -246,7 +267,7 @@ func c20Run(c *Case) {
 func init() {
 	register(&Prop{
 		ID: "C20", Level: "exploration",
-		Rule:             "enumerated boundary programs, each run in its own subprocess under a 4 GiB address-space limit (process death, also by running out of memory, is a violation): recursion of 6 shapes (direct, mutual-2, mutual-3, through match expression body, through match block body, through an argument) x 8 per-level expression nestings (none, 100 / 3000 prefix operators, 100 parenthesised additions, 3000 array literals, chains of 400 / 3000 / 300 binary operators) x depth targets {1000, 3000, unbounded}, each shape also entered through one / two wrapper functions and from inside match bodies (so that the frame crossing the limit is a function frame in some and a match frame in others), plus recursion from a rule pattern and with two recursive calls; ordinary long histories at shallow depth (70000-150000 loop rounds / calls / input values with signals, 300 x 900-deep recursion) must not be refused; array stores and reads at indices 999999 / 1000000 / 1048576 / 1048577 / 1999999 / 2000000 / 1e9 / 1e18 / 1e23 / -1 / -1e18 / 0.5 on empty and non-empty arrays, through $-paths, through freshly created nested paths, repeated in a loop, and beyond the limit on an array that is already a million long (the limit is on the index, not on the distance); printf widths 4096 / +-65535 / +-65536 / 065536 / +-65537 / 1e5 / +-1e10 / 30 digits, and widths at and beyond 2^31, 2^32, 2^63, 2^64, 2^128 (+ small offsets, which wrap to small numbers in fixed-width arithmetic) for %s %f %v; JSON input nested 1000 / 5000 / 9999 / 10001 / 20000 / 1000000 deep in arrays, objects and mixtures followed by a second value, and a million unclosed brackets. Oracle: bands, not today's constants (1000 frames, index <= 1e6, width <= 65536, nesting <= 5000 must work; unbounded recursion, index >= 2e6, width > 65536, nesting >= 20000 must be an ordinary runtime/JSON error; in between either), the marker printed before the step must be kept. Evidence: peak RSS per family and the frame depth at refusal (hook). Every case is non-trivial.",
+		Rule:             "enumerated boundary programs, each run in its own subprocess under a 4 GiB address-space limit (process death, also by running out of memory, is a violation): recursion of 6 shapes (direct, mutual-2, mutual-3, through match expression body, through match block body, through an argument) x 8 per-level expression nestings (none, 100 / 3000 prefix operators, 100 parenthesised additions, 3000 array literals, chains of 400 / 3000 / 300 binary operators) x depth targets {1000, 3000, unbounded}, each shape also entered through one / two wrapper functions and from inside match bodies (so that the frame crossing the limit is a function frame in some and a match frame in others), plus recursion from a rule pattern and with two recursive calls; ordinary long histories at shallow depth (70000-150000 loop rounds / calls / input values with signals, 300 x 900-deep recursion) must not be refused; array stores and reads at indices 999999 / 1000000 / 1048576 / 1048577 / 1999999 / 2000000 / 1e9 / 1e18 / 1e23 / -1 / -1e18 / 0.5 on empty and non-empty arrays, through $-paths, through freshly created nested paths, repeated in a loop, and beyond the limit on an array that is already a million long (the limit is on the index, not on the distance); printf widths 4096 / +-65535 / +-65536 / 065536 / +-65537 / 1e5 / +-1e10 / 30 digits, and widths at and beyond 2^31, 2^32, 2^63, 2^64, 2^128 (+ small offsets, which wrap to small numbers in fixed-width arithmetic) for %s %f %v; JSON input nested 1000 / 5000 / 9999 / 10001 / 20000 / 1000000 deep in arrays, objects and mixtures followed by a second value, and a million unclosed brackets. The recursion and long-history programs also run through the command-line binary (no signal, no Go trace, same outcome class as the library). Oracle: bands, not today's constants (1000 frames, index <= 1e6, width <= 65536, nesting <= 5000 must work; unbounded recursion, index >= 2e6, width > 65536, nesting >= 20000 must be an ordinary runtime/JSON error; in between either), the marker printed before the step must be kept. Evidence: peak RSS per family and the frame depth at refusal (hook). Every case is non-trivial.",
 		NumCases:         func(tier string) int { return len(c20List) },
 		Run:              c20Run,
 		MinConclusive:    func(tier string) int { return len(c20List) * 9 / 10 },
